@@ -1,101 +1,109 @@
 /-
-C01, the decision half: every predecessor a staged entry or a task record lists is a record that
-has *recorded `true`* for the transition leading to that task.  (`Justified.lean` shows the listed
-predecessors are completed and decided; this file shows what the decision was.)
+C06, ancestor-exactness: every context snapshot a staged entry or a task record of task `t` lists
+is the initial one (index 0) or reached `t` through a record that *recorded `true` for a
+transition into `t`* and either had that snapshot in its own list or published it on that very
+transition.  Unfolding the definition along the chain of such records, every variable a task is
+rendered with was published on a path of satisfied transitions ending in that task: a variable
+published only on a transition that does not lead to the task is never visible to it.
+
+`pubLog` is the model's ghost log of (publishing record, transition, snapshot).
 -/
-import OrqModel.Proofs.JustifiedUpdate
-import OrqModel.Proofs.TasksOk
-import OrqModel.Proofs.GraphFixed
-import OrqModel.Properties.Keys
+import OrqModel.Proofs.Truth
 
 namespace Orq
 
 variable (E : Evaluator)
 
-/-- record `i` has recorded the decision `m` -/
-def Recorded (c : Cond) (i : Nat) (m : TransId × Bool) : Prop :=
-  ∃ q, c.st.sequence[i]? = some q ∧ m ∈ q.next
+/-- snapshot `i` reached task `id` through some record that recorded `true` for a transition into `id` -/
+def Via (c : Cond) (id : String) (i : Nat) : Prop :=
+  ∃ (idx : Nat) (q : Rec) (key : Nat), c.st.sequence[idx]? = some q ∧ (((id, key) : TransId), true) ∈ q.next ∧
+    (i ∈ q.ctxsIn ∨ (idx, ((id, key) : TransId), i) ∈ c.st.pubLog)
 
-/-- predecessor entry `p = ((source task, key), record index)` of an entry of task `id`: the
-    record has recorded `true` for the transition `(id, key)` -/
-def TrueAt (c : Cond) (id : String) (p : TransId × Nat) : Prop := Recorded c p.2 ((id, p.1.2), true)
+def CtxOk (c : Cond) (id : String) (l : List Nat) : Prop := ∀ i ∈ l, i = 0 ∨ Via c id i
 
-def PrevT (c : Cond) (id : String) (l : List (TransId × Nat)) : Prop := ∀ p ∈ l, TrueAt c id p
+structure CA (c : Cond) : Prop where
+  staged : ∀ x ∈ c.st.staged, CtxOk c x.id x.ctxsIn
+  recs : ∀ r ∈ c.st.sequence, CtxOk c r.id r.ctxsIn
 
-structure JT (c : Cond) : Prop where
-  staged : ∀ x ∈ c.st.staged, PrevT c x.id x.prev
-  recs : ∀ r ∈ c.st.sequence, PrevT c r.id r.prev
+theorem Rec.core_ctxsIn {r r' : Rec} (h : r'.core = r.core) : r'.ctxsIn = r.ctxsIn := by
+  unfold Rec.core at h
+  exact (Prod.mk.inj (Prod.mk.inj (Prod.mk.inj h).2).2).1
 
-/-- recorded decisions stay recorded -/
-structure MK (c c' : Cond) : Prop where
-  keep : ∀ (i : Nat) (r : Rec) (m : TransId × Bool), c.st.sequence[i]? = some r → m ∈ r.next →
-    ∃ r', c'.st.sequence[i]? = some r' ∧ m ∈ r'.next
+theorem Ext.pubs_mem {a b : WState} (h : a.Ext b) {m} (hm : m ∈ a.pubLog) : m ∈ b.pubLog := by
+  obtain ⟨_, _, _, l, hl⟩ := h
+  rw [hl]
+  exact List.mem_append_left _ hm
 
-theorem MK.refl (c : Cond) : MK c c := ⟨fun i r m h hm => ⟨r, h, hm⟩⟩
+theorem Via.mono {c c' : Cond} (hm : MK c c') (he : c.st.Ext c'.st) {id : String} {i : Nat}
+    (h : Via c id i) : Via c' id i := by
+  obtain ⟨idx, q, key, hq, hmem, hi⟩ := h
+  obtain ⟨q', hq', hmem'⟩ := hm.keep idx q _ hq hmem
+  obtain ⟨q'', hq'', hc⟩ := Ext.getElem_core he hq
+  rw [hq'] at hq''
+  cases hq''
+  refine ⟨idx, q', key, hq', hmem', ?_⟩
+  rcases hi with hi | hi
+  · left; rw [Rec.core_ctxsIn hc]; exact hi
+  · right; exact Ext.pubs_mem he hi
 
-theorem MK.trans {a b c : Cond} (h1 : MK a b) (h2 : MK b c) : MK a c := by
-  constructor
-  intro i r m hr hm
-  obtain ⟨r', hr', hm'⟩ := h1.keep i r m hr hm
-  exact h2.keep i r' m hr' hm'
+theorem CtxOk.mono {c c' : Cond} (hm : MK c c') (he : c.st.Ext c'.st) {id : String} {l : List Nat}
+    (h : CtxOk c id l) : CtxOk c' id l := by
+  intro i hi
+  rcases h i hi with h0 | hv
+  · exact Or.inl h0
+  · exact Or.inr (hv.mono hm he)
 
-theorem NK.toMK {c c' : Cond} (h : NK c c') : MK c c' := by
-  constructor
-  intro i r m hr hm
-  obtain ⟨r', hr', e⟩ := h.keep i r hr (List.ne_nil_of_mem hm)
-  exact ⟨r', hr', by rw [e]; exact hm⟩
+theorem CtxOk.zero (c : Cond) (id : String) : CtxOk c id [0] := by
+  intro i hi
+  left
+  simpa using hi
 
-theorem NxAll.toMK {c c' : Cond} (h : NxAll c c') : MK c c' := h.nk.toMK
+/-- `if l.isEmpty then [0] else l` -/
+theorem CtxOk.orZero {c : Cond} {id : String} {l : List Nat} (h : CtxOk c id l) :
+    CtxOk c id (if l.isEmpty then [0] else l) := by
+  split
+  · exact CtxOk.zero c id
+  · exact h
 
-theorem Recorded.mono {c c' : Cond} (h : MK c c') {i : Nat} {m} (hr : Recorded c i m) : Recorded c' i m := by
-  obtain ⟨q, hq, hm⟩ := hr
-  obtain ⟨q', hq', hm'⟩ := h.keep i q m hq hm
-  exact ⟨q', hq', hm'⟩
-
-theorem PrevT.mono {c c' : Cond} (h : MK c c') {id : String} {l} (hl : PrevT c id l) : PrevT c' id l :=
-  fun p hp => (hl p hp).mono h
-
-theorem PrevT.nil (c : Cond) (id : String) : PrevT c id [] := fun p hp => by cases hp
-
-/-- the general step -/
-theorem JT.of_parts {c c' : Cond} (hm : MK c c') (he : c.st.Ext c'.st) (hj : JT c)
-    (hs : ∀ x' ∈ c'.st.staged, (∃ x ∈ c.st.staged, x'.prev = x.prev ∧ x'.id = x.id) ∨ PrevT c x'.id x'.prev)
+/-- the general step: every staged entry / record of the new state carries the list (and task) of
+    an old one, or a list that is justified in the new state -/
+theorem CA.of_parts {c c' : Cond} (hm : MK c c') (he : c.st.Ext c'.st) (hj : CA c)
+    (hs : ∀ x' ∈ c'.st.staged, (∃ x ∈ c.st.staged, x'.ctxsIn = x.ctxsIn ∧ x'.id = x.id) ∨ CtxOk c' x'.id x'.ctxsIn)
     (hr : ∀ (i : Nat) (r' : Rec), c'.st.sequence[i]? = some r' → c.st.sequence.length ≤ i →
-      PrevT c r'.id r'.prev) : JT c' := by
+      CtxOk c' r'.id r'.ctxsIn) : CA c' := by
   refine ⟨?_, ?_⟩
   · intro x' hx'
     rcases hs x' hx' with ⟨x, hx, e1, e2⟩ | h
-    · rw [e1, e2]; exact (hj.staged x hx).mono hm
-    · exact h.mono hm
+    · rw [e1, e2]; exact (hj.staged x hx).mono hm he
+    · exact h
   · intro r' hr'
     obtain ⟨i, hi⟩ := List.getElem?_of_mem hr'
     by_cases hlen : c.st.sequence.length ≤ i
-    · exact (hr i r' hi hlen).mono hm
+    · exact hr i r' hi hlen
     · have hlt : i < c.st.sequence.length := Nat.lt_of_not_le hlen
       have hr0 : c.st.sequence[i]? = some c.st.sequence[i] := List.getElem?_eq_getElem hlt
       obtain ⟨r'', hr'', hc⟩ := Ext.getElem_core he hr0
       rw [hi] at hr''
       cases hr''
-      rw [Rec.core_id hc, Rec.core_prev hc]
-      exact (hj.recs _ (List.mem_of_getElem? hr0)).mono hm
+      rw [Rec.core_id hc, Rec.core_ctxsIn hc]
+      exact (hj.recs _ (List.mem_of_getElem? hr0)).mono hm he
 
-/-- no record is appended and no predecessor is added -/
-theorem JT.step {c c' : Cond} (hm : MK c c') (he : c.st.Ext c'.st) (hp : PrevStep c c') (hj : JT c) : JT c' := by
-  apply JT.of_parts hm he hj
+theorem CA.step {c c' : Cond} (hm : MK c c') (he : c.st.Ext c'.st) (hp : PrevStep c c') (hj : CA c) : CA c' := by
+  apply CA.of_parts hm he hj
   · intro x' hx'
-    obtain ⟨x, hx, e1, e2, _⟩ := hp.staged x' hx'
-    exact Or.inl ⟨x, hx, e1, e2⟩
+    obtain ⟨x, hx, _, e2, e3⟩ := hp.staged x' hx'
+    exact Or.inl ⟨x, hx, e3, e2⟩
   · intro i r' hi hlen
     obtain ⟨r, hr, _⟩ := hp.recs i r' hi
     have := (List.getElem?_eq_some_iff.mp hr).1
     omega
 
-theorem JT.uniform {α} {m : M α} (h1 : Rel nxaPre m) (h2 : Rel extPre m) (h3 : Rel prevPre m) (c : Cond)
-    (hj : JT c) : JT (m c).2 :=
-  JT.step (h1.run c).toMK (h2.run c) (h3.run c) hj
+theorem CA.uniform {α} {m : M α} (h1 : Rel nxaPre m) (h2 : Rel extPre m) (h3 : Rel prevPre m) (c : Cond)
+    (hj : CA c) : CA (m c).2 :=
+  CA.step (h1.run c).toMK (h2.run c) (h3.run c) hj
 
-theorem jt_bind {α β} (m : M α) (f : α → M β) (c : Cond)
-    (hm : JT (m c).2) (hf : ∀ a c1, m c = (.ok a, c1) → JT (f a c1).2) : JT ((m >>= f) c).2 := by
+theorem ca_bind {α β} (m : M α) (f : α → M β) (c : Cond)
+    (hm : CA (m c).2) (hf : ∀ a c1, m c = (.ok a, c1) → CA (f a c1).2) : CA ((m >>= f) c).2 := by
   rw [M.bind_run]
   cases h : m c with
   | mk res c1 =>
@@ -104,60 +112,43 @@ theorem jt_bind {α β} (m : M α) (f : α → M β) (c : Cond)
     | ok a => exact hf a c1 h
     | error e => exact hm
 
-theorem jt_bind_uniform {α β} {m : M α} {f : α → M β} {c : Cond}
-    (h1 : Rel nxaPre m) (h2 : Rel extPre m) (h3 : Rel prevPre m) (hj : JT c)
-    (hf : ∀ a c1, m c = (.ok a, c1) → MK c c1 → JT c1 → JT (f a c1).2) : JT ((m >>= f) c).2 := by
-  apply jt_bind
-  · exact JT.uniform h1 h2 h3 c hj
+theorem ca_bind_uniform {α β} {m : M α} {f : α → M β} {c : Cond}
+    (h1 : Rel nxaPre m) (h2 : Rel extPre m) (h3 : Rel prevPre m) (hj : CA c)
+    (hf : ∀ a c1, m c = (.ok a, c1) → MK c c1 → c.st.Ext c1.st → CA c1 → CA (f a c1).2) : CA ((m >>= f) c).2 := by
+  apply ca_bind
+  · exact CA.uniform h1 h2 h3 c hj
   intro a c1 hm
   have w := (h1.run c).toMK
-  have j := JT.uniform h1 h2 h3 c hj
-  rw [hm] at w j
-  exact hf a c1 hm w j
+  have e := h2.run c
+  have j := CA.uniform h1 h2 h3 c hj
+  rw [hm] at w e j
+  exact hf a c1 hm w e j
 
 /-! ### staging the target of a transition -/
 
-theorem mem_updateStaged_go_key (k : TaskKey) (g : Staged → Staged) (l : List Staged) (x' : Staged)
-    (h : x' ∈ WState.updateStaged.go k g l) :
-    x' ∈ l ∨ ∃ x ∈ l, x.id = k.1 ∧ x' = g x := by
-  induction l with
-  | nil => unfold WState.updateStaged.go at h; cases h
-  | cons a as ih =>
-    unfold WState.updateStaged.go at h
-    split at h
-    · rename_i hk
-      simp only [List.mem_cons] at h
-      rcases h with h | h
-      · right
-        simp only [Bool.and_eq_true, beq_iff_eq] at hk
-        exact ⟨a, List.mem_cons_self, hk.1, h⟩
-      · left; exact List.mem_cons_of_mem _ h
-    · simp only [List.mem_cons] at h
-      rcases h with h | h
-      · left; rw [h]; exact List.mem_cons_self
-      · rcases ih h with h' | ⟨x, hx, e1, e2⟩
-        · left; exact List.mem_cons_of_mem _ h'
-        · right; exact ⟨x, List.mem_cons_of_mem _ hx, e1, e2⟩
-
-theorem mem_setAssoc_eq {κ} [BEq κ] [LawfulBEq κ] {β} (l : List (κ × β)) (k : κ) (v : β) (p : κ × β)
-    (h : p ∈ setAssoc l k v) : p ∈ l ∨ p = (k, v) := by
-  unfold setAssoc at h
+theorem mem_eraseFirst {xs : List Nat} {x : Nat} {rest : List Nat} (h : eraseFirst xs x = some rest) :
+    ∀ i ∈ rest, i ∈ xs := by
+  unfold eraseFirst at h
   split at h
-  · obtain ⟨q, hq, e⟩ := List.mem_map.mp h
-    split at e
-    · rename_i hk
-      right
-      have : q.1 = k := eq_of_beq hk
-      rw [← e, this]
-    · left; rw [← e]; exact hq
-  · rcases List.mem_append.mp h with h | h
-    · left; exact h
-    · right
-      simpa using h
+  · cases h
+    intro i hi
+    exact List.mem_of_mem_erase hi
+  · cases h
 
-theorem stageTarget_jt (nk : TaskKey) (backref : TransId) (idx : Nat) (outIdxs : List Nat) (c : Cond)
-    (hj : JT c) (ht : Recorded c idx ((nk.1, backref.2), true)) :
-    JT (stageTarget nk backref idx outIdxs c).2 := by
+/-- a state with the same records and publication log justifies the same lists -/
+theorem CtxOk.same {c c' : Cond} (hs : c'.st.sequence = c.st.sequence) (hp : c'.st.pubLog = c.st.pubLog)
+    {id : String} {l : List Nat} (h : CtxOk c id l) : CtxOk c' id l := by
+  intro i hi
+  rcases h i hi with h0 | ⟨idx, q, key, hq, hm, hv⟩
+  · exact Or.inl h0
+  · right
+    refine ⟨idx, q, key, by rw [hs]; exact hq, hm, ?_⟩
+    rcases hv with hv | hv
+    · exact Or.inl hv
+    · right; rw [hp]; exact hv
+
+theorem stageTarget_ca (nk : TaskKey) (backref : TransId) (idx : Nat) (outIdxs : List Nat) (c : Cond)
+    (hj : CA c) (ho : CtxOk c nk.1 outIdxs) : CA (stageTarget nk backref idx outIdxs c).2 := by
   unfold stageTarget
   rw [M.bind_run]
   simp only [M.get]
@@ -169,54 +160,52 @@ theorem stageTarget_jt (nk : TaskKey) (backref : TransId) (idx : Nat) (outIdxs :
     | none => exact hj
     | some rest =>
       simp only [liftOpt, pure, M.pure', M.modifySt, M.modify]
-      refine JT.of_parts ?hm ?he hj ?_ ?_
-      case hm => exact ⟨fun i r m hr hm => ⟨r, hr, hm⟩⟩
-      case he => exact Ext.of_eq rfl rfl rfl rfl
+      refine CA.of_parts ?mk1 ?ext1 hj ?_ ?_
+      case mk1 => exact ⟨fun i r m hr hm => ⟨r, hr, hm⟩⟩
+      case ext1 => exact Ext.of_eq rfl rfl rfl rfl
       · intro x' hx'
         rcases mem_updateStaged_go_key _ _ _ _ hx' with h | ⟨x, hx, hid, ex⟩
         · left; exact ⟨x', h, rfl, rfl⟩
         · right
           rw [ex]
-          intro p hp
-          rcases mem_setAssoc_eq _ _ _ _ hp with hp' | hp'
-          · exact hj.staged x hx p hp'
-          · rw [hp']
-            show Recorded c idx ((x.id, backref.2), true)
+          apply CtxOk.same (c := c) rfl rfl
+          intro i hi
+          rcases List.mem_append.mp hi with hi' | hi'
+          · exact hj.staged x hx i hi'
+          · show i = 0 ∨ Via c x.id i
             rw [hid]
-            exact ht
+            exact ho i (mem_eraseFirst he i hi')
       · intro i r' hr' hlen
-        have := (List.getElem?_eq_some_iff.mp hr').1
-        exact absurd this (by show ¬ i < c.st.sequence.length; omega)
+        have h2 : i < c.st.sequence.length := (List.getElem?_eq_some_iff.mp hr').1
+        omega
   | none =>
     simp only [M.modifySt, M.modify]
-    refine JT.of_parts ?hm ?he hj ?_ ?_
-    case hm => exact ⟨fun i r m hr hm => ⟨r, hr, hm⟩⟩
-    case he => exact Ext.of_eq rfl rfl rfl rfl
+    refine CA.of_parts ?mk1 ?ext1 hj ?_ ?_
+    case mk1 => exact ⟨fun i r m hr hm => ⟨r, hr, hm⟩⟩
+    case ext1 => exact Ext.of_eq rfl rfl rfl rfl
     · intro x' hx'
       rcases List.mem_append.mp hx' with h | h
       · left; exact ⟨x', h, rfl, rfl⟩
       · right
         simp only [List.mem_singleton] at h
         subst h
-        intro p hp
-        simp only [List.mem_singleton] at hp
-        subst hp
-        exact ht
+        apply CtxOk.same (c := c) rfl rfl
+        exact ho.orZero
     · intro i r' hr' hlen
-      have := (List.getElem?_eq_some_iff.mp hr').1
-      exact absurd this (by show ¬ i < c.st.sequence.length; omega)
+      have h2 : i < c.st.sequence.length := (List.getElem?_eq_some_iff.mp hr').1
+      omega
 
-theorem stageNext_jt (k : TaskKey) (idx : Nat) (e : Edge) (outIdxs : List Nat) (acc : TransAcc) (c : Cond)
-    (hj : JT c) (ht : Recorded c idx ((e.dst, e.key), true)) : JT (stageNext k idx e outIdxs acc c).2 := by
+theorem stageNext_ca (k : TaskKey) (idx : Nat) (e : Edge) (outIdxs : List Nat) (acc : TransAcc) (c : Cond)
+    (hj : CA c) (ho : CtxOk c e.dst outIdxs) : CA (stageNext k idx e outIdxs acc c).2 := by
   unfold stageNext
-  apply jt_bind_uniform (evaluateRoute_nxa e k.2) (evaluateRoute_ext e k.2) (evaluateRoute_prev e k.2) hj
-  intro nextRoute c1 _ w1 hj1
-  have hj2 := stageTarget_jt (e.dst, nextRoute) (k.1, e.key) idx outIdxs c1 hj1 (ht.mono w1)
-  apply jt_bind
+  apply ca_bind_uniform (evaluateRoute_nxa e k.2) (evaluateRoute_ext e k.2) (evaluateRoute_prev e k.2) hj
+  intro nextRoute c1 _ w1 e1 hj1
+  have hj2 := stageTarget_ca (e.dst, nextRoute) (k.1, e.key) idx outIdxs c1 hj1 (ho.mono w1 e1)
+  apply ca_bind
   · exact hj2
   intro u c2 h2
   rw [h2] at hj2
-  exact JT.uniform (m := (do
+  exact CA.uniform (m := (do
       let c ← M.get
       let ready := inboundStatus c e.dst k.2 == .satisfied
       M.modifySt fun st => st.updateStaged (e.dst, nextRoute) fun x => { x with ready := ready }
@@ -225,21 +214,32 @@ theorem stageNext_jt (k : TaskKey) (idx : Nat) (e : Edge) (outIdxs : List Nat) (
       else if ready then pure { acc with readyKeys := acc.readyKeys ++ [(e.dst, nextRoute)] }
       else pure acc : M TransAcc)) (by nxa_walk []) (by ext_walk []) (by prev_walk []) c2 hj2
 
-theorem fireTransition_nxa (k idx ec acc e) : Rel nxaPre (fireTransition E k idx ec acc e) := by
-  unfold fireTransition
-  nxa_walk [stageNext_nxa _ _ _ _ _, failOnError_nxa, logError_nxa _ _ _ _]
+/-- the state update of a publishing transition -/
+def pubStep (st : WState) (newCtx : Val.Dict) (idx : Nat) (tid : TransId) (n : Nat) : WState :=
+  WState.updateRec { st with contexts := st.contexts ++ [newCtx], pubLog := st.pubLog ++ [(idx, tid, n)] } idx
+    fun r => { r with ctxsOut := some (tid, n) }
 
-theorem fireTransition_jt (k : TaskKey) (idx : Nat) (ec : EvalCtx) (acc : TransAcc) (e : Edge) (c : Cond)
-    (hj : JT c) (ht : Recorded c idx ((e.dst, e.key), true)) : JT (fireTransition E k idx ec acc e c).2 := by
+theorem pubStep_nxa (newCtx : Val.Dict) (idx : Nat) (tid : TransId) (n : Nat) :
+    Rel nxaPre (M.modifySt fun st => pubStep st newCtx idx tid n) := by
+  unfold pubStep
+  nxa_walk []
+
+theorem pubStep_prev (newCtx : Val.Dict) (idx : Nat) (tid : TransId) (n : Nat) :
+    Rel prevPre (M.modifySt fun st => pubStep st newCtx idx tid n) := by
+  unfold pubStep
+  prev_walk []
+
+theorem fireTransition_ca (k : TaskKey) (idx : Nat) (ec : EvalCtx) (acc : TransAcc) (e : Edge) (c : Cond)
+    (hj : CA c) (ht : Recorded c idx ((e.dst, e.key), true)) : CA (fireTransition E k idx ec acc e c).2 := by
   unfold fireTransition
   rw [M.bind_run]
   simp only [M.get]
-  apply jt_bind
+  apply ca_bind
   · rw [liftOpt_state]; exact hj
   intro ts c1 h1
   obtain ⟨_, e1⟩ := liftOpt_ok h1
   subst e1
-  apply jt_bind
+  apply ca_bind
   · rw [liftOpt_state]; exact hj
   intro tr c2 h2
   obtain ⟨_, e2⟩ := liftOpt_ok h2
@@ -249,37 +249,59 @@ theorem fireTransition_jt (k : TaskKey) (idx : Nat) (ec : EvalCtx) (acc : TransA
   dsimp only
   by_cases hn : nerr > 0
   · rw [if_pos hn]
-    exact JT.uniform (by nxa_walk [failOnError_nxa, logError_nxa _ _ _ _]) (by ext_walk [failOnError_ext])
+    exact CA.uniform (by nxa_walk [failOnError_nxa, logError_nxa _ _ _ _]) (by ext_walk [failOnError_ext])
       (by prev_walk [failOnError_prev, logError_prev _ _ _ _]) c hj
   · rw [if_neg hn]
-    apply jt_bind
+    apply ca_bind
     · rw [liftOpt_state]; exact hj
     intro r c3 h3
-    obtain ⟨_, e3⟩ := liftOpt_ok h3
+    obtain ⟨hr, e3⟩ := liftOpt_ok h3
     subst e3
-    apply jt_bind_uniform (by nxa_walk []) (by ext_walk []) (by prev_walk []) hj
-    intro u c4 _ w hj4
-    exact stageNext_jt k idx e _ acc c4 hj4 (ht.mono w)
+    -- what the predecessor saw reaches the target through it
+    have hsaw : ∀ c' : Cond, MK c c' → c.st.Ext c'.st → ∀ i ∈ r.ctxsIn, Via c' e.dst i := by
+      intro c' w ex i hi
+      obtain ⟨q, hq, hm⟩ := ht
+      rw [hr] at hq
+      cases hq
+      exact Via.mono w ex ⟨idx, r, e.key, hr, hm, Or.inl hi⟩
+    by_cases hempty : newCtx.isEmpty = true
+    · rw [if_pos hempty, if_pos hempty]
+      rw [M.bind_run]
+      simp only [pure, M.pure']
+      apply stageNext_ca k idx e _ acc c hj
+      intro i hi
+      exact Or.inr (hsaw c (MK.refl c) (WState.Ext.refl _) i hi)
+    · rw [if_neg hempty, if_neg hempty]
+      rw [M.bind_run]
+      simp only [M.modifySt, M.modify]
+      show CA (stageNext k idx e (r.ctxsIn ++ [c.st.contexts.length]) acc
+        { c with st := pubStep c.st newCtx idx (e.dst, e.key) c.st.contexts.length }).2
+      have hm4 : MK c { c with st := pubStep c.st newCtx idx (e.dst, e.key) c.st.contexts.length } :=
+        ((pubStep_nxa newCtx idx (e.dst, e.key) c.st.contexts.length).run c).toMK
+      have he4 : c.st.Ext (pubStep c.st newCtx idx (e.dst, e.key) c.st.contexts.length) :=
+        Ext.appendCtx _ _ _ _ _ (fun _ => rfl)
+      have hp4 := (pubStep_prev newCtx idx (e.dst, e.key) c.st.contexts.length).run c
+      have hj4 := CA.step hm4 he4 hp4 hj
+      apply stageNext_ca k idx e _ acc _ hj4
+      intro i hi
+      right
+      rcases List.mem_append.mp hi with hi' | hi'
+      · exact hsaw _ hm4 he4 i hi'
+      · simp only [List.mem_singleton] at hi'
+        subst hi'
+        obtain ⟨q, hq, hm⟩ := ht
+        obtain ⟨q', hq', hm'⟩ := hm4.keep idx q _ hq hm
+        refine ⟨idx, q', e.key, hq', hm', Or.inr ?_⟩
+        show _ ∈ c.st.pubLog ++ [_]
+        exact List.mem_append_right _ (List.mem_singleton.mpr rfl)
 
-/-- the decisions record `idx` holds do not mention `tid` yet -/
-def FreshAt (c : Cond) (idx : Nat) (tid : TransId) : Prop :=
-  ∀ q, c.st.sequence[idx]? = some q → ∀ m ∈ q.next, m.1 ≠ tid
-
-theorem setAssoc_fresh {β} (l : List (TransId × β)) (k : TransId) (v : β) (h : ∀ m ∈ l, m.1 ≠ k) :
-    setAssoc l k v = l ++ [(k, v)] := by
-  unfold setAssoc
-  rw [if_neg]
-  intro hany
-  obtain ⟨m, hm, hk⟩ := List.any_eq_true.mp hany
-  exact h m hm (eq_of_beq hk)
-
-theorem processTransition_jt (k : TaskKey) (idx : Nat) (ec : EvalCtx) (acc : TransAcc) (e : Edge) (c : Cond)
-    (hj : JT c) (hfresh : FreshAt c idx (e.dst, e.key)) : JT (processTransition E k idx ec acc e c).2 := by
+theorem processTransition_ca (k : TaskKey) (idx : Nat) (ec : EvalCtx) (acc : TransAcc) (e : Edge) (c : Cond)
+    (hj : CA c) (hfresh : FreshAt c idx (e.dst, e.key)) : CA (processTransition E k idx ec acc e c).2 := by
   unfold processTransition
   cases transCriteria E e ec with
   | none =>
     dsimp only
-    exact JT.uniform (by nxa_walk [failOnError_nxa, logError_nxa _ _ _ _]) (by ext_walk [failOnError_ext])
+    exact CA.uniform (by nxa_walk [failOnError_nxa, logError_nxa _ _ _ _]) (by ext_walk [failOnError_ext])
       (by prev_walk [failOnError_prev, logError_prev _ _ _ _]) c hj
   | some b =>
     dsimp only
@@ -301,8 +323,8 @@ theorem processTransition_jt (k : TaskKey) (idx : Nat) (ec : EvalCtx) (acc : Tra
         show (c.st.sequence.modify idx _)[i]? = some r
         rw [getElem?_modify_ne _ _ _ _ hi]
         exact hr
-    have hj1 : JT ({ c with st := c.st.updateRec idx fun r => { r with next := setAssoc r.next (e.dst, e.key) b } } : Cond) := by
-      apply JT.step hmk (Ext.updateRec _ _ _ (fun _ => rfl)) ?_ hj
+    have hj1 : CA ({ c with st := c.st.updateRec idx fun r => { r with next := setAssoc r.next (e.dst, e.key) b } } : Cond) := by
+      apply CA.step hmk (Ext.updateRec _ _ _ (fun _ => rfl)) ?_ hj
       exact (show Rel prevPre (M.modifySt fun st => st.updateRec idx fun r => { r with next := setAssoc r.next (e.dst, e.key) b }) by
         prev_walk []).run c
     cases b with
@@ -311,16 +333,15 @@ theorem processTransition_jt (k : TaskKey) (idx : Nat) (ec : EvalCtx) (acc : Tra
       rw [if_neg (by decide)]
       cases hq : c.st.sequence[idx]? with
       | none =>
-        -- no such record: `fireTransition` raises before it stages anything
         unfold fireTransition
         rw [M.bind_run]
         simp only [M.get]
-        apply jt_bind
+        apply ca_bind
         · rw [liftOpt_state]; exact hj1
         intro ts c1 h1
         obtain ⟨_, e1⟩ := liftOpt_ok h1
         subst e1
-        apply jt_bind
+        apply ca_bind
         · rw [liftOpt_state]; exact hj1
         intro tr c2 h2
         obtain ⟨_, e2⟩ := liftOpt_ok h2
@@ -330,10 +351,10 @@ theorem processTransition_jt (k : TaskKey) (idx : Nat) (ec : EvalCtx) (acc : Tra
         dsimp only
         by_cases hn : nerr > 0
         · rw [if_pos hn]
-          exact JT.uniform (by nxa_walk [failOnError_nxa, logError_nxa _ _ _ _]) (by ext_walk [failOnError_ext])
+          exact CA.uniform (by nxa_walk [failOnError_nxa, logError_nxa _ _ _ _]) (by ext_walk [failOnError_ext])
             (by prev_walk [failOnError_prev, logError_prev _ _ _ _]) _ hj1
         · rw [if_neg hn]
-          apply jt_bind
+          apply ca_bind
           · rw [liftOpt_state]; exact hj1
           intro r c3 h3
           obtain ⟨hr3, _⟩ := liftOpt_ok h3
@@ -342,7 +363,7 @@ theorem processTransition_jt (k : TaskKey) (idx : Nat) (ec : EvalCtx) (acc : Tra
           rw [getElem?_modify_same, hq] at this
           cases this
       | some q =>
-        apply fireTransition_jt E k idx ec acc e _ hj1
+        apply fireTransition_ca E k idx ec acc e _ hj1
         refine ⟨{ q with next := setAssoc q.next (e.dst, e.key) true }, ?_, ?_⟩
         · show (c.st.sequence.modify idx _)[idx]? = _
           rw [getElem?_modify_same, hq]
@@ -351,68 +372,19 @@ theorem processTransition_jt (k : TaskKey) (idx : Nat) (ec : EvalCtx) (acc : Tra
           rw [setAssoc_fresh _ _ _ (hfresh q hq)]
           exact List.mem_append_right _ (List.mem_singleton.mpr rfl)
 
-/-! ### the loop over the outbound transitions -/
-
-theorem NxAll.back {c c' : Cond} (h : NxAll c c') {i : Nat} {q q' : Rec} (hq : c.st.sequence[i]? = some q)
-    (hq' : c'.st.sequence[i]? = some q') : q'.next = q.next := by
-  obtain ⟨r', hr', e⟩ := h.keep i q hq
-  rw [hq'] at hr'
-  cases hr'
-  exact e
-
-theorem processTransition_keys (k : TaskKey) (idx : Nat) (ec : EvalCtx) (acc : TransAcc) (e : Edge) (c : Cond)
-    (q : Rec) (hq : c.st.sequence[idx]? = some q) (q1 : Rec)
-    (hq1 : (processTransition E k idx ec acc e c).2.st.sequence[idx]? = some q1) :
-    ∀ m ∈ q1.next, m ∈ q.next ∨ m.1 = (e.dst, e.key) := by
-  unfold processTransition at hq1
-  cases htc : transCriteria E e ec with
-  | none =>
-    rw [htc] at hq1
-    dsimp only at hq1
-    have hn : Rel nxaPre (do
-        logError "ExpressionEvaluationException" (some k.1) (some k.2) (some (e.dst, e.key))
-        failOnError
-        pure acc : M TransAcc) := by
-      nxa_walk [failOnError_nxa, logError_nxa _ _ _ _]
-    have := (hn.run c).back hq hq1
-    intro m hm
-    left
-    rw [this] at hm
-    exact hm
-  | some b =>
-    rw [htc] at hq1
-    dsimp only at hq1
-    rw [M.bind_run] at hq1
-    simp only [M.modifySt, M.modify] at hq1
-    have hq' : ({ c with st := c.st.updateRec idx fun r => { r with next := setAssoc r.next (e.dst, e.key) b } } : Cond).st.sequence[idx]?
-        = some { q with next := setAssoc q.next (e.dst, e.key) b } := by
-      show (c.st.sequence.modify idx _)[idx]? = _
-      rw [getElem?_modify_same, hq]
-      rfl
-    have hn : Rel nxaPre (if !b then pure acc else fireTransition E k idx ec acc e : M TransAcc) := by
-      split
-      · exact Rel.pure _
-      · exact fireTransition_nxa E _ _ _ _ _
-    have := (hn.run _).back hq' hq1
-    intro m hm
-    rw [this] at hm
-    rcases mem_setAssoc_eq _ _ _ _ hm with h | h
-    · left; exact h
-    · right; rw [h]
-
-theorem evalFold_jt (k : TaskKey) (idx : Nat) (ec : EvalCtx) :
+theorem evalFold_ca (k : TaskKey) (idx : Nat) (ec : EvalCtx) :
     ∀ (ts : List Edge) (acc : TransAcc) (c : Cond),
-      (ts.map fun e => ((e.dst, e.key) : String × Nat)).Nodup → JT c → CompAt c idx →
+      (ts.map fun e => ((e.dst, e.key) : String × Nat)).Nodup → CA c → CompAt c idx →
       (∀ e ∈ ts, FreshAt c idx (e.dst, e.key)) →
-      JT (M.foldM' ts acc (processTransition E k idx ec) c).2 := by
+      CA (M.foldM' ts acc (processTransition E k idx ec) c).2 := by
   intro ts
   induction ts with
   | nil => intro acc c _ hj _ _; exact hj
   | cons e rest ih =>
     intro acc c hnd hj hcomp hfresh
-    show JT (M.bind' (processTransition E k idx ec acc e) (fun b' => M.foldM' rest b' (processTransition E k idx ec)) c).2
+    show CA (M.bind' (processTransition E k idx ec acc e) (fun b' => M.foldM' rest b' (processTransition E k idx ec)) c).2
     unfold M.bind'
-    have h1 := processTransition_jt E k idx ec acc e c hj (hfresh e List.mem_cons_self)
+    have h1 := processTransition_ca E k idx ec acc e c hj (hfresh e List.mem_cons_self)
     have hc1 := ((processTransition_at E k idx ec acc e).run c hcomp).1
     have hkeys := processTransition_keys E k idx ec acc e c
     cases hr : processTransition E k idx ec acc e c with
@@ -433,15 +405,15 @@ theorem evalFold_jt (k : TaskKey) (idx : Nat) (ec : EvalCtx) :
           rw [heq]
           exact List.mem_map.mpr ⟨e', he', rfl⟩
 
-theorem evalTransitions_jt (k : TaskKey) (idx : Nat) (ts : TaskSpec) (ev : Event) (c : Cond)
-    (hj : JT c) (hcomp : CompAt c idx) (hund : Undecided c idx) (hkeys : KeysOk c.graph.edges) :
-    JT (evalTransitions E k idx ts ev c).2 := by
+theorem evalTransitions_ca (k : TaskKey) (idx : Nat) (ts : TaskSpec) (ev : Event) (c : Cond)
+    (hj : CA c) (hcomp : CompAt c idx) (hund : Undecided c idx) (hkeys : KeysOk c.graph.edges) :
+    CA (evalTransitions E k idx ts ev c).2 := by
   unfold evalTransitions
   have hd1 := (makeTaskContext_dec k idx (taskResult ts ev)).run c
   have hg1 := (makeTaskContext_g k idx (taskResult ts ev)).run c
   have hn1 := (makeTaskContext_nxa k idx (taskResult ts ev)).run c
-  apply jt_bind_uniform (makeTaskContext_nxa _ _ _) (makeTaskContext_ext _ _ _) (makeTaskContext_prev _ _ _) hj
-  intro ec c1 h1 _ hj1
+  apply ca_bind_uniform (makeTaskContext_nxa _ _ _) (makeTaskContext_ext _ _ _) (makeTaskContext_prev _ _ _) hj
+  intro ec c1 h1 _ _ hj1
   rw [h1] at hd1 hg1 hn1
   have hcomp1 : CompAt c1 idx := CompAt.step hd1 hcomp
   have hund1 : Undecided c1 idx := by
@@ -459,8 +431,8 @@ theorem evalTransitions_jt (k : TaskKey) (idx : Nat) (ts : TaskSpec) (ev : Event
     nxa_walk []
   have hd2 := hm2d.run c1
   have hn2 := hm2n.run c1
-  apply jt_bind_uniform hm2n (by ext_walk []) (by prev_walk []) hj1
-  intro u c2 h2 _ hj2
+  apply ca_bind_uniform hm2n (by ext_walk []) (by prev_walk []) hj1
+  intro u c2 h2 _ _ hj2
   rw [h2] at hd2 hn2
   have hcomp2 : CompAt c2 idx := CompAt.step hd2 hcomp1
   have hund2 : Undecided c2 idx := by
@@ -472,31 +444,37 @@ theorem evalTransitions_jt (k : TaskKey) (idx : Nat) (ts : TaskSpec) (ev : Event
     apply nextTransitions_nodup
     rw [hg1.2]
     exact hkeys
-  have hloop := evalFold_jt E k idx ec (c1.graph.nextTransitions k.1) ({} : TransAcc) c2 hnd hj2 hcomp2
+  have hloop := evalFold_ca E k idx ec (c1.graph.nextTransitions k.1) ({} : TransAcc) c2 hnd hj2 hcomp2
     (fun e _ q hq m hm => by rw [hund2 q hq] at hm; cases hm)
-  apply jt_bind
+  apply ca_bind
   · exact hloop
   intro acc c3 h3
   rw [h3] at hloop
-  exact JT.uniform (by nxa_walk []) (by ext_walk []) (by prev_walk []) c3 hloop
+  exact CA.uniform (by nxa_walk []) (by ext_walk []) (by prev_walk []) c3 hloop
 
 /-! ### new records, re-staging for a retry -/
 
-theorem JT.append (c : Cond) (r0 : Rec) (k : TaskKey) (n : Nat) (hj : JT c) (hb : PrevT c r0.id r0.prev) :
-    JT { c with st := ({ c.st with sequence := c.st.sequence ++ [r0] } : WState).setTask k n } := by
+theorem newRecord_ctxsIn (c : Cond) (k : TaskKey) (a : List Nat) (b : List (TransId × Nat)) :
+    (newRecord E c k a b).1.ctxsIn = if a.isEmpty then [0] else a := by
+  unfold newRecord
+  dsimp only
+  split <;> rfl
+
+theorem CA.append (c : Cond) (r0 : Rec) (k : TaskKey) (n : Nat) (hj : CA c) (hb : CtxOk c r0.id r0.ctxsIn) :
+    CA { c with st := ({ c.st with sequence := c.st.sequence ++ [r0] } : WState).setTask k n } := by
   have hseq : (({ c.st with sequence := c.st.sequence ++ [r0] } : WState).setTask k n).sequence = c.st.sequence ++ [r0] := by
     rw [WState.setTask_sequence]
   have hstg : (({ c.st with sequence := c.st.sequence ++ [r0] } : WState).setTask k n).staged = c.st.staged := by
     unfold WState.setTask; split <;> rfl
-  refine JT.of_parts ?hm ?he hj ?_ ?_
-  case hm =>
+  have hmk : MK c { c with st := ({ c.st with sequence := c.st.sequence ++ [r0] } : WState).setTask k n } := by
     constructor
     intro i r m hr hm
     refine ⟨r, ?_, hm⟩
     show (WState.setTask _ _ _).sequence[i]? = some r
     rw [hseq, List.getElem?_append_left (List.getElem?_eq_some_iff.mp hr).1]
     exact hr
-  case he => exact Ext.appendRec _ _ _ _
+  have hext : c.st.Ext (({ c.st with sequence := c.st.sequence ++ [r0] } : WState).setTask k n) := Ext.appendRec _ _ _ _
+  refine CA.of_parts hmk hext hj ?_ ?_
   · intro x' hx'
     left
     refine ⟨x', ?_, rfl, rfl⟩
@@ -514,10 +492,10 @@ theorem JT.append (c : Cond) (r0 : Rec) (k : TaskKey) (n : Nat) (hj : JT c) (hb 
       | zero => rw [hi] at hr''; simpa using hr''.symm
       | succ n => rw [hi] at hr''; simp at hr''
     rw [this]
-    exact hb
+    exact hb.mono hmk hext
 
-theorem addTaskState_jt (k : TaskKey) (a : List Nat) (b : List (TransId × Nat)) (c : Cond)
-    (hj : JT c) (hb : PrevT c k.1 b) : JT (addTaskState E k a b c).2 := by
+theorem addTaskState_ca (k : TaskKey) (a : List Nat) (b : List (TransId × Nat)) (c : Cond)
+    (hj : CA c) (ha : CtxOk c k.1 a) : CA (addTaskState E k a b c).2 := by
   unfold addTaskState
   rw [M.bind_run]
   simp only [M.get]
@@ -541,21 +519,18 @@ theorem addTaskState_jt (k : TaskKey) (a : List Nat) (b : List (TransId × Nat))
           logError e.className (some k.1) (some k.2)
           failOnError : M Unit) := by
       prev_walk [failOnError_prev, logError_prev _ _ _ _]
-    apply jt_bind_uniform hhn hhe hhp hj
-    intro u c2 _ w hj2
+    apply ca_bind_uniform hhn hhe hhp hj
+    intro u c2 _ w ex hj2
     rw [M.bind_run]
     simp only [M.get]
     rw [M.bind_run]
     simp only [M.modifySt, M.modify, pure, M.pure']
-    apply JT.append c2 _ k _ hj2
-    rw [newRecord_prev, newRecord_id]
-    exact hb.mono w
+    apply CA.append c2 _ k _ hj2
+    rw [newRecord_ctxsIn, newRecord_id]
+    exact (ha.mono w ex).orZero
 
-/-- the record at `idx`, if there is one, is a record of task `id` -/
-def IdAt (c : Cond) (idx : Nat) (id : String) : Prop := ∀ r, c.st.sequence[idx]? = some r → r.id = id
-
-theorem restageRetry_jt (k : TaskKey) (idx : Nat) (o : Status) (c : Cond) (hj : JT c) (hid : IdAt c idx k.1) :
-    JT (restageRetry k idx o c).2 := by
+theorem restageRetry_ca (k : TaskKey) (idx : Nat) (o : Status) (c : Cond) (hj : CA c) (hid : IdAt c idx k.1) :
+    CA (restageRetry k idx o c).2 := by
   have hm := (NxAll.of_map ((restageRetry_nx k idx o).run c)).toMK
   have he := (restageRetry_ext k idx o).run c
   unfold restageRetry at hm he ⊢
@@ -576,7 +551,7 @@ theorem restageRetry_jt (k : TaskKey) (idx : Nat) (o : Status) (c : Cond) (hj : 
       | some rs =>
         rw [hrs] at hm he
         simp only [liftOpt, pure, M.pure'] at hm he ⊢
-        apply JT.of_parts hm he hj
+        apply CA.of_parts hm he hj
         · intro x' hx'
           have hx'' : x' ∈ ((c.st.updateRec idx fun r => { r with retry := some { rs with tally := rs.tally + 1 } }).removeStaged k).staged ++
               [({ id := k.1, route := k.2, ctxsIn := if r.ctxsIn.isEmpty then [0] else r.ctxsIn,
@@ -588,9 +563,10 @@ theorem restageRetry_jt (k : TaskKey) (idx : Nat) (o : Status) (c : Cond) (hj : 
           · right
             simp only [List.mem_singleton] at h
             subst h
-            show PrevT c k.1 r.prev
-            rw [← hid r hr]
-            exact hj.recs r (List.mem_of_getElem? hr)
+            have hok : CtxOk c k.1 r.ctxsIn := by
+              rw [← hid r hr]
+              exact hj.recs r (List.mem_of_getElem? hr)
+            exact (hok.mono hm he).orZero
         · intro i r' hr' hlen
           exfalso
           have hmap : (WState.addStaged ((c.st.updateRec idx fun r => { r with retry := some { rs with tally := rs.tally + 1 } }).removeStaged k)
@@ -606,137 +582,90 @@ theorem restageRetry_jt (k : TaskKey) (idx : Nat) (o : Status) (c : Cond) (hj : 
           omega
     · exact hj
 
-theorem IdAt.ext {c c' : Cond} {idx : Nat} {id : String} (he : c.st.Ext c'.st) {r : Rec}
-    (hr : c.st.sequence[idx]? = some r) (hid : IdAt c idx id) : IdAt c' idx id := by
-  intro r' hr'
-  obtain ⟨r'', hr'', hc⟩ := Ext.getElem_core he hr
-  rw [hr'] at hr''
-  cases hr''
-  rw [Rec.core_id hc]
-  exact hid r hr
-
-theorem machineStep_jt (k : TaskKey) (idx : Nat) (ev : Event) (c : Cond) (hj : JT c) (hid : IdAt c idx k.1) :
-    JT (machineStep k idx ev c).2 := by
+theorem machineStep_ca (k : TaskKey) (idx : Nat) (ev : Event) (c : Cond) (hj : CA c) (hid : IdAt c idx k.1) :
+    CA (machineStep k idx ev c).2 := by
   unfold machineStep
   rw [M.bind_run]
   simp only [M.get]
-  apply jt_bind
+  apply ca_bind
   · rw [liftOpt_state]; exact hj
   intro r c1 h1
   obtain ⟨hr, e1⟩ := liftOpt_ok h1
   subst e1
-  have he3 := (tkProcessEvent_ext idx ev).run c
-  apply jt_bind_uniform (Rel.nxa_of_nx (tkProcessEvent_nx idx ev)) (tkProcessEvent_ext idx ev) (tkProcessEvent_prev idx ev) hj
-  intro u c3 h3 _ hj3
-  rw [h3] at he3
+  apply ca_bind_uniform (Rel.nxa_of_nx (tkProcessEvent_nx idx ev)) (tkProcessEvent_ext idx ev) (tkProcessEvent_prev idx ev) hj
+  intro u c3 h3 _ he3 hj3
   have hid3 : IdAt c3 idx k.1 := hid.ext he3 hr
   rw [M.bind_run]
   simp only [M.get]
-  apply jt_bind
+  apply ca_bind
   · rw [liftOpt_state]; exact hj3
   intro r' c4 h4
   obtain ⟨_, e4⟩ := liftOpt_ok h4
   subst e4
-  apply jt_bind
-  · exact restageRetry_jt k idx _ c3 hj3 hid3
+  apply ca_bind
+  · exact restageRetry_ca k idx _ c3 hj3 hid3
   intro u5 c5 h5
-  have := restageRetry_jt k idx (r.status.getD .unset) c3 hj3 hid3
+  have := restageRetry_ca k idx (r.status.getD .unset) c3 hj3 hid3
   rw [h5] at this
   exact this
 
-theorem recordFromStaged_jt (k : TaskKey) (s0 : Option Staged) (c : Cond) (hj : JT c)
-    (hs : ∀ sx, s0 = some sx → PrevT c k.1 sx.prev) : JT (recordFromStaged E k s0 c).2 := by
+theorem recordFromStaged_ca (k : TaskKey) (s0 : Option Staged) (c : Cond) (hj : CA c)
+    (hs : ∀ sx, s0 = some sx → CtxOk c k.1 sx.ctxsIn) : CA (recordFromStaged E k s0 c).2 := by
   unfold recordFromStaged
   cases s0 with
   | none => exact hj
-  | some sx => exact addTaskState_jt E _ _ _ c hj (hs sx rfl)
+  | some sx => exact addTaskState_ca E _ _ _ c hj (hs sx rfl)
 
-theorem firstRecord_jt (k : TaskKey) (s0 : Option Staged) (r0 : Option Nat) (c : Cond) (hj : JT c)
-    (hs : ∀ sx, s0 = some sx → PrevT c k.1 sx.prev) : JT (firstRecord E k s0 r0 c).2 := by
+theorem firstRecord_ca (k : TaskKey) (s0 : Option Staged) (r0 : Option Nat) (c : Cond) (hj : CA c)
+    (hs : ∀ sx, s0 = some sx → CtxOk c k.1 sx.ctxsIn) : CA (firstRecord E k s0 r0 c).2 := by
   unfold firstRecord
   cases r0 with
-  | none => exact recordFromStaged_jt E k s0 c hj hs
+  | none => exact recordFromStaged_ca E k s0 c hj hs
   | some i =>
     cases isCmdName k.1 with
     | false => exact hj
-    | true => exact recordFromStaged_jt E k s0 c hj hs
+    | true => exact recordFromStaged_ca E k s0 c hj hs
 
-theorem firstRecord_nxa (k s r) : Rel nxaPre (firstRecord E k s r) := by
+theorem firstRecord_ext (k s r) : Rel extPre (firstRecord E k s r) := by
   unfold firstRecord recordFromStaged
-  nxa_walk [addTaskState_nxa E _ _ _]
+  ext_walk [addTaskState_ext E _ _ _]
 
-theorem ensureRecord_jt (k : TaskKey) (s0 : Option Staged) (r0 : Option Nat) (ev : Event) (c : Cond)
-    (hj : JT c) (hs : ∀ sx, s0 = some sx → PrevT c k.1 sx.prev) : JT (ensureRecord E k s0 r0 ev c).2 := by
+theorem ensureRecord_ca (k : TaskKey) (s0 : Option Staged) (r0 : Option Nat) (ev : Event) (c : Cond)
+    (hj : CA c) (hs : ∀ sx, s0 = some sx → CtxOk c k.1 sx.ctxsIn) : CA (ensureRecord E k s0 r0 ev c).2 := by
   unfold ensureRecord
-  have hj1 := firstRecord_jt E k s0 r0 c hj hs
+  have hj1 := firstRecord_ca E k s0 r0 c hj hs
   have w1 := ((firstRecord_nxa E k s0 r0).run c).toMK
-  apply jt_bind
+  have e1 := (firstRecord_ext E k s0 r0).run c
+  apply ca_bind
   · exact hj1
   intro i c1 h1
-  rw [h1] at hj1 w1
+  rw [h1] at hj1 w1 e1
   rw [M.bind_run]
   simp only [M.get]
-  apply jt_bind
+  apply ca_bind
   · rw [liftOpt_state]; exact hj1
   intro r c2 h2
   obtain ⟨_, e2⟩ := liftOpt_ok h2
   subst e2
   split
-  · exact recordFromStaged_jt E k s0 c1 hj1 (fun sx h => (hs sx h).mono w1)
+  · exact recordFromStaged_ca E k s0 c1 hj1 (fun sx h => (hs sx h).mono w1 e1)
   · exact hj1
 
-theorem ensureRecord_cmd_id (k : TaskKey) (s0 : Option Staged) (r0 : Option Nat) (ev : Event) (c c1 : Cond)
-    (idx : Nat) (hcmd : isCmdName k.1 = true) (h : ensureRecord E k s0 r0 ev c = (.ok idx, c1)) :
-    ∃ r, c1.st.sequence[idx]? = some r ∧ r.id = k.1 := by
-  unfold ensureRecord firstRecord recordFromStaged at h
-  obtain ⟨i, c', h1, h2⟩ := M.bind_ok h
-  have h1' : ∃ sx : Staged, addTaskState E (k.1, sx.route) sx.ctxsIn sx.prev c = (.ok i, c') := by
-    cases r0 <;> simp only [hcmd] at h1 <;> (cases s0 with
-      | none => cases h1
-      | some sx => exact ⟨sx, h1⟩)
-  obtain ⟨sx, h1'⟩ := h1'
-  have hpost := addTaskState_post E _ _ _ _ _ _ h1'
-  obtain ⟨c2, c3, hget, h3⟩ := M.bind_ok h2
-  obtain ⟨e1, e2⟩ := get_ok hget
-  subst e1 e2
-  obtain ⟨r, c4, hl, h4⟩ := M.bind_ok h3
-  obtain ⟨hr, e3⟩ := liftOpt_ok hl
-  subst e3
-  rw [hpost.1] at hr
-  cases hr
-  simp only [newRecord_status, Option.any_none, Bool.false_and] at h4
-  obtain ⟨e4, e5⟩ := pure_ok h4
-  subst e4 e5
-  exact ⟨_, hpost.1, newRecord_id E _ _ _ _⟩
-
-/-- phase 1 returns a record of the reported task -/
-theorem ensureRecord_id (k : TaskKey) (ev : Event) (c c1 : Cond) (idx : Nat) (hk : TK c)
-    (h : ensureRecord E k (c.st.getStaged? k) (c.st.taskIdx? k) ev c = (.ok idx, c1)) :
-    ∃ r, c1.st.sequence[idx]? = some r ∧ r.id = k.1 := by
-  cases hcmd : isCmdName k.1 with
-  | false =>
-    have hk1 : TK c1 := by
-      have := TK.step ((ensureRecord_tk E k (c.st.getStaged? k) (c.st.taskIdx? k) ev).run c) hk
-      rw [h] at this
-      exact this
-    exact hk1.taskIdx (ensureRecord_taskIdx E k ev c c1 idx hcmd h)
-  | true => exact ensureRecord_cmd_id E k _ _ ev c c1 idx hcmd h
-
-theorem updateHead_jt (k : TaskKey) (ev : Event) (c : Cond) (hj : JT c) (hk : TK c) :
-    JT (updateHead E k ev c).2 := by
+theorem updateHead_ca (k : TaskKey) (ev : Event) (c : Cond) (hj : CA c) (hk : TK c) :
+    CA (updateHead E k ev c).2 := by
   unfold updateHead
   rw [M.bind_run]
   simp only [M.get]
   split
   · exact hj
-  apply jt_bind
+  apply ca_bind
   · rw [liftOpt_state]; exact hj
   intro ts c0 h0
   obtain ⟨_, e0⟩ := liftOpt_ok h0
   subst e0
   split
   · exact hj
-  have hs : ∀ sx, c.st.getStaged? k = some sx → PrevT c k.1 sx.prev := by
+  have hs : ∀ sx, c.st.getStaged? k = some sx → CtxOk c k.1 sx.ctxsIn := by
     intro sx hsx
     have hkey := getStaged?_key _ _ _ hsx
     have hid : sx.id = k.1 := by rw [← hkey]
@@ -744,14 +673,14 @@ theorem updateHead_jt (k : TaskKey) (ev : Event) (c : Cond) (hj : JT c) (hk : TK
     apply hj.staged sx
     unfold WState.getStaged? at hsx
     exact List.mem_of_find?_eq_some hsx
-  have hj1 := ensureRecord_jt E k _ (c.st.taskIdx? k) ev c hj hs
-  apply jt_bind
+  have hj1 := ensureRecord_ca E k _ (c.st.taskIdx? k) ev c hj hs
+  apply ca_bind
   · exact hj1
   intro idx c1 h1
   rw [h1] at hj1
   obtain ⟨r1, hr1, hid1⟩ := ensureRecord_id E k ev c c1 idx hk h1
-  apply jt_bind_uniform (noteEvent_nxa _ _ _) (noteEvent_ext _ _ _) (noteEvent_prev _ _ _) hj1
-  intro u c2 h2 _ hj2
+  apply ca_bind_uniform (noteEvent_nxa _ _ _) (noteEvent_ext _ _ _) (noteEvent_prev _ _ _) hj1
+  intro u c2 h2 _ _ hj2
   have hsq := (noteEvent_sq k (c.st.getStaged? k) ev).run c1
   rw [h2] at hsq
   have hid2 : IdAt c2 idx k.1 := by
@@ -759,35 +688,32 @@ theorem updateHead_jt (k : TaskKey) (ev : Event) (c : Cond) (hj : JT c) (hk : TK
     rw [hsq.1, hr1] at hr
     cases hr
     exact hid1
-  apply jt_bind
-  · exact machineStep_jt k idx ev c2 hj2 hid2
+  apply ca_bind
+  · exact machineStep_ca k idx ev c2 hj2 hid2
   intro p c3 h3
-  have := machineStep_jt k idx ev c2 hj2 hid2
+  have := machineStep_ca k idx ev c2 hj2 hid2
   rw [h3] at this
   exact this
 
 /-! ### the invariants together -/
 
-structure Inv (c : Cond) : Prop where
-  dec : Dec c
-  tk : TK c
-  gk : KeysOk c.graph.edges
-  jt : JT c
+structure Inv2 (c : Cond) : Prop where
+  inv : Inv c
+  ca : CA c
 
-theorem Inv.of {c c' : Cond} (hi : Inv c) (w : DecStepW c c') (t : TKStep c c') (g : gPre.R c c') (j : JT c') :
-    Inv c' := ⟨Dec.stepW w hi.dec, TK.step t hi.tk, by rw [g.2]; exact hi.gk, j⟩
+structure JI2 {α} (m : M α) : Prop where
+  run : ∀ c, Inv2 c → Inv2 (m c).2
 
-/-- a Hoare judgement for the bundle -/
-structure JI {α} (m : M α) : Prop where
-  run : ∀ c, Inv c → Inv (m c).2
+theorem JI2.of_rel {α} {m : M α} (h1 : Rel decStep m) (h2 : Rel tkPre m) (h3 : Rel gPre m) (h4 : Rel nxaPre m)
+    (h5 : Rel prevPre m) : JI2 m :=
+  ⟨fun c hi => ⟨(JI.of_rel h1 h2 h3 h4 h5).run c hi.inv,
+    CA.step (h4.run c).toMK (h2.run c).ext (h5.run c) hi.ca⟩⟩
 
-theorem JI.of_rel {α} {m : M α} (h1 : Rel decStep m) (h2 : Rel tkPre m) (h3 : Rel gPre m) (h4 : Rel nxaPre m)
-    (h5 : Rel prevPre m) : JI m :=
-  ⟨fun c hi => hi.of (h1.run c).weak (h2.run c) (h3.run c) (JT.step (h4.run c).toMK (h2.run c).ext (h5.run c) hi.jt)⟩
+theorem JI2.pure {α} (a : α) : JI2 (Pure.pure a : M α) := ⟨fun _ hi => hi⟩
 
-theorem JI.pure {α} (a : α) : JI (Pure.pure a : M α) := ⟨fun _ hi => hi⟩
+theorem JI2.throw {α} (e : Err) : JI2 (M.throw e : M α) := ⟨fun _ hi => hi⟩
 
-theorem JI.bind {α β} {m : M α} {f : α → M β} (hm : JI m) (hf : ∀ a, JI (f a)) : JI (m >>= f) := by
+theorem JI2.bind {α β} {m : M α} {f : α → M β} (hm : JI2 m) (hf : ∀ a, JI2 (f a)) : JI2 (m >>= f) := by
   constructor
   intro c hi
   have h1 := hm.run c hi
@@ -799,22 +725,29 @@ theorem JI.bind {α β} {m : M α} {f : α → M β} (hm : JI m) (hf : ∀ a, JI
     | ok a => exact (hf a).run c1 h1
     | error e => exact h1
 
-theorem JI.forEach {α} (xs : List α) {f : α → M Unit} (hf : ∀ x, JI (f x)) : JI (M.forEach xs f) := by
+theorem JI2.forEach {α} (xs : List α) {f : α → M Unit} (hf : ∀ x, JI2 (f x)) : JI2 (M.forEach xs f) := by
   induction xs with
-  | nil => exact JI.pure ()
+  | nil => exact JI2.pure ()
   | cons x xs ih =>
-    show JI (M.bind' (f x) fun _ => M.forEach xs f)
-    exact JI.bind (hf x) (fun _ => ih)
+    show JI2 (M.bind' (f x) fun _ => M.forEach xs f)
+    exact JI2.bind (hf x) (fun _ => ih)
 
-theorem updateRest_jt (recur : TaskKey → Event → M Unit)
-    (hrec : ∀ nk cmd, Cmd.ofStr? nk.1 = some cmd → JI (recur nk (.engine cmd)))
-    (k : TaskKey) (ev : Event) (h : Stepped) (c : Cond) (hi : Inv c)
+theorem JI2.mapM' {α β} (xs : List α) {f : α → M β} (hf : ∀ x, JI2 (f x)) : JI2 (M.mapM' xs f) := by
+  induction xs with
+  | nil => exact JI2.pure _
+  | cons x xs ih =>
+    show JI2 (M.bind' (f x) fun y => M.bind' (M.mapM' xs f) fun ys => Pure.pure (y :: ys))
+    exact JI2.bind (hf x) (fun _ => JI2.bind ih (fun _ => JI2.pure _))
+
+theorem updateRest_inv2 (recur : TaskKey → Event → M Unit)
+    (hrec : ∀ nk cmd, Cmd.ofStr? nk.1 = some cmd → JI2 (recur nk (.engine cmd)))
+    (k : TaskKey) (ev : Event) (h : Stepped) (c : Cond) (hi : Inv2 c)
     (hcomp : h.newStatus.isCompleted = true → CompAt c h.idx)
     (hund : h.newStatus ≠ h.oldStatus → Undecided c h.idx) :
-    JT (updateRest E recur k ev h c).2 := by
+    Inv2 (updateRest E recur k ev h c).2 := by
   unfold updateRest
   have hfirst : ∀ acc c1, (if h.newStatus.isCompleted && h.newStatus != h.oldStatus then evalTransitions E k h.idx h.ts ev
-      else pure {} : M TransAcc) c = (acc, c1) → Inv c1 := by
+      else pure {} : M TransAcc) c = (acc, c1) → Inv2 c1 := by
     intro acc c1 h1
     split at h1
     · rename_i hcond
@@ -828,9 +761,10 @@ theorem updateRest_jt (recur : TaskKey → Event → M Unit)
       have w := ((evalTransitions_at E k h.idx h.ts ev).run c (hcomp hcond.1)).2.weak
       have t := (evalTransitions_tk E k h.idx h.ts ev).run c
       have g := (evalTransitions_g E k h.idx h.ts ev).run c
-      have j := evalTransitions_jt E k h.idx h.ts ev c hi.jt (hcomp hcond.1) (hund hne) hi.gk
-      rw [h1] at w t g j
-      exact hi.of w t g j
+      have j := evalTransitions_jt E k h.idx h.ts ev c hi.inv.jt (hcomp hcond.1) (hund hne) hi.inv.gk
+      have a := evalTransitions_ca E k h.idx h.ts ev c hi.ca (hcomp hcond.1) (hund hne) hi.inv.gk
+      rw [h1] at w t g j a
+      exact ⟨hi.inv.of w t g j, a⟩
     · have : c1 = c := by
         simp only [pure, M.pure', Prod.mk.injEq] at h1
         exact h1.2.symm
@@ -842,10 +776,10 @@ theorem updateRest_jt (recur : TaskKey → Event → M Unit)
   | mk res c1 =>
     have hi1 := hfirst res c1 h1
     cases res with
-    | error e => exact hi1.jt
+    | error e => exact hi1
     | ok acc =>
       dsimp only
-      have hrest : JI (do
+      have hrest : JI2 (do
           let c ← M.get
           let r ← liftOpt c.st.sequence[h.idx]? .indexError
           let st ← liftOpt r.status .keyError
@@ -855,32 +789,42 @@ theorem updateRest_jt (recur : TaskKey → Event → M Unit)
             | some cmd => recur nk (.engine cmd)
             | none => pure ()
           markTermIfCompleted h.idx : M Unit) := by
-        apply JI.bind (JI.of_rel Rel.get Rel.get Rel.get Rel.get Rel.get)
+        apply JI2.bind (JI2.of_rel Rel.get Rel.get Rel.get Rel.get Rel.get)
         intro c2
-        apply JI.bind (JI.of_rel (Rel.liftOpt _ _) (Rel.liftOpt _ _) (Rel.liftOpt _ _) (Rel.liftOpt _ _) (Rel.liftOpt _ _))
+        apply JI2.bind (JI2.of_rel (Rel.liftOpt _ _) (Rel.liftOpt _ _) (Rel.liftOpt _ _) (Rel.liftOpt _ _) (Rel.liftOpt _ _))
         intro r
-        apply JI.bind (JI.of_rel (Rel.liftOpt _ _) (Rel.liftOpt _ _) (Rel.liftOpt _ _) (Rel.liftOpt _ _) (Rel.liftOpt _ _))
+        apply JI2.bind (JI2.of_rel (Rel.liftOpt _ _) (Rel.liftOpt _ _) (Rel.liftOpt _ _) (Rel.liftOpt _ _) (Rel.liftOpt _ _))
         intro st
-        apply JI.bind (JI.of_rel (wfProcessTaskEvent_dec _ _) (wfProcessTaskEvent_tk _ _) (wfProcessTaskEvent_g _ _)
+        apply JI2.bind (JI2.of_rel (wfProcessTaskEvent_dec _ _) (wfProcessTaskEvent_tk _ _) (wfProcessTaskEvent_g _ _)
           (Rel.nxa_of_nx (wfProcessTaskEvent_nx _ _)) (wfProcessTaskEvent_prev _ _))
         intro _
-        apply JI.bind
-        · apply JI.forEach
+        apply JI2.bind
+        · apply JI2.forEach
           intro nk
           split
           · rename_i cmd hcmd
             exact hrec nk cmd hcmd
-          · exact JI.pure ()
+          · exact JI2.pure ()
         · intro _
-          exact JI.of_rel (markTermIfCompleted_dec _) (markTermIfCompleted_tk _) (markTermIfCompleted_g _)
+          exact JI2.of_rel (markTermIfCompleted_dec _) (markTermIfCompleted_tk _) (markTermIfCompleted_g _)
             (markTermIfCompleted_nxa _) (markTermIfCompleted_prev _)
-      exact (hrest.run c1 hi1).jt
+      exact hrest.run c1 hi1
 
-theorem updateTail_jt (recur : TaskKey → Event → M Unit)
-    (hrec : ∀ k ev c, Inv c → Pre18 k ev c → Inv (recur k ev c).2)
-    (k : TaskKey) (ev : Event) (h : Stepped) (c : Cond) (hi : Inv c) (hpost : HeadPost h c)
+theorem inv2_bind {α β} (m : M α) (f : α → M β) (c : Cond)
+    (hm : Inv2 (m c).2) (hf : ∀ a c1, m c = (.ok a, c1) → Inv2 (f a c1).2) : Inv2 ((m >>= f) c).2 := by
+  rw [M.bind_run]
+  cases h : m c with
+  | mk res c1 =>
+    rw [h] at hm
+    cases res with
+    | ok a => exact hf a c1 h
+    | error e => exact hm
+
+theorem updateTail_inv2 (recur : TaskKey → Event → M Unit)
+    (hrec : ∀ k ev c, Inv2 c → Pre18 k ev c → Inv2 (recur k ev c).2)
+    (k : TaskKey) (ev : Event) (h : Stepped) (c : Cond) (hi : Inv2 c) (hpost : HeadPost h c)
     (hidx : isCmdName k.1 = false → c.st.taskIdx? k = some h.idx) :
-    JT (updateTail E recur k ev h c).2 := by
+    Inv2 (updateTail E recur k ev h c).2 := by
   unfold updateTail
   have hm1 : Rel decStep (if h.newStatus.isCompleted then completedRetryDecision E k h.idx h.ts h.oldStatus h.newStatus ev
       else pure false : M Bool) := by
@@ -915,9 +859,9 @@ theorem updateTail_jt (recur : TaskKey → Event → M Unit)
   have hs5 := hm1.run c
   have hk5 := hm1k.run c
   have hn5 := hm1n.run c
-  have hi5 := (JI.of_rel hm1 hm1t hm1g (Rel.nxa_of_nx hm1n) hm1p).run c hi
-  apply jt_bind
-  · exact hi5.jt
+  have hi5 := (JI2.of_rel hm1 hm1t hm1g (Rel.nxa_of_nx hm1n) hm1p).run c hi
+  apply inv2_bind
+  · exact hi5
   intro retry c5 h5
   rw [h5] at hs5 hk5 hn5 hi5
   obtain ⟨r, hr, hstat, hund⟩ := hpost
@@ -930,7 +874,7 @@ theorem updateTail_jt (recur : TaskKey → Event → M Unit)
     exact hund hne
   cases retry with
   | false =>
-    apply updateRest_jt E recur _ k ev h c5 hi5
+    apply updateRest_inv2 E recur _ k ev h c5 hi5
     · intro hcomp
       have hcr : Comp r := by
         cases hs : r.status with
@@ -951,7 +895,7 @@ theorem updateTail_jt (recur : TaskKey → Event → M Unit)
       rw [hcmd]
       rfl
   | true =>
-    apply (hrec k _ c5 hi5 _).jt
+    apply hrec k _ c5 hi5
     intro _
     cases hcmd : isCmdName k.1 with
     | true => left; rfl
@@ -969,59 +913,58 @@ theorem updateTail_jt (recur : TaskKey → Event → M Unit)
             cases e
         exact hund5 hne
 
-theorem updateTaskStateAux_inv (fuel : Nat) (k : TaskKey) (ev : Event) (c : Cond) (hi : Inv c)
-    (hpre : Pre18 k ev c) : Inv (updateTaskStateAux E fuel k ev c).2 := by
+theorem updateTaskStateAux_inv2 (fuel : Nat) (k : TaskKey) (ev : Event) (c : Cond) (hi : Inv2 c)
+    (hpre : Pre18 k ev c) : Inv2 (updateTaskStateAux E fuel k ev c).2 := by
   induction fuel generalizing k ev c with
   | zero => unfold updateTaskStateAux; exact hi
   | succ n ih =>
-    refine hi.of (updateTaskStateAux_decw E (n + 1) k ev c hi.dec hpre) ((updateTaskStateAux_tk E (n + 1) k ev).run c)
-      ((updateTaskStateAux_g E (n + 1) k ev).run c) ?_
     unfold updateTaskStateAux
-    obtain ⟨hw, hpost⟩ := updateHead_decw E k ev c hi.dec hpre
-    have hjh := updateHead_jt E k ev c hi.jt hi.tk
+    obtain ⟨hw, hpost⟩ := updateHead_decw E k ev c hi.inv.dec hpre
+    have hjh := updateHead_jt E k ev c hi.inv.jt hi.inv.tk
+    have hah := updateHead_ca E k ev c hi.ca hi.inv.tk
     have ht := (updateHead_tk E k ev).run c
     have hg := (updateHead_g E k ev).run c
-    apply jt_bind
-    · exact hjh
+    apply inv2_bind
+    · exact ⟨hi.inv.of hw ht hg hjh, hah⟩
     intro h c4 h4
-    rw [h4] at hw hjh ht hg
-    apply updateTail_jt E _ (fun k ev c hi hp => ih k ev c hi hp) k ev h c4 (hi.of hw ht hg hjh) (hpost h c4 h4)
+    rw [h4] at hw hjh hah ht hg
+    apply updateTail_inv2 E _ (fun k ev c hi hp => ih k ev c hi hp) k ev h c4 ⟨hi.inv.of hw ht hg hjh, hah⟩ (hpost h c4 h4)
     intro hcmd
     exact updateHead_taskIdx E k ev c c4 h h4 hcmd
 
 /-! ### rerun -/
 
-theorem requestTaskRerun_jt (k : TaskKey) (resetItems : Bool) (c : Cond) (hj : JT c) (hk : TK c) :
-    JT (requestTaskRerun E k resetItems c).2 := by
+theorem requestTaskRerun_ca (k : TaskKey) (resetItems : Bool) (c : Cond) (hj : CA c) (hk : TK c) :
+    CA (requestTaskRerun E k resetItems c).2 := by
   unfold requestTaskRerun
   rw [M.bind_run]
   simp only [M.get]
-  apply jt_bind
+  apply ca_bind
   · rw [liftOpt_state]; exact hj
   intro idx c0 h0
   obtain ⟨hidx, e0⟩ := liftOpt_ok h0
   subst e0
-  apply jt_bind
+  apply ca_bind
   · rw [liftOpt_state]; exact hj
   intro task c0 h0
   obtain ⟨htask, e0⟩ := liftOpt_ok h0
   subst e0
-  apply jt_bind
+  apply ca_bind
   · rw [liftOpt_state]; exact hj
   intro ts c0 h0
   obtain ⟨_, e0⟩ := liftOpt_ok h0
   subst e0
-  have hprev : PrevT c k.1 task.prev := by
+  have hctx : CtxOk c k.1 task.ctxsIn := by
     obtain ⟨r, hr, hid⟩ := hk.taskIdx hidx
     rw [htask] at hr
     cases hr
     rw [← hid]
     exact hj.recs task (List.mem_of_getElem? htask)
-  apply jt_bind_uniform (by nxa_walk []) (by ext_walk []) (by prev_walk []) hj
-  intro u c1 _ w1 hj1
-  apply jt_bind_uniform (by nxa_walk []) (by ext_walk []) (by prev_walk []) hj1
-  intro u c2 _ w2 hj2
-  have hprev2 : PrevT c2 k.1 task.prev := (hprev.mono w1).mono w2
+  apply ca_bind_uniform (by nxa_walk []) (by ext_walk []) (by prev_walk []) hj
+  intro u c1 _ w1 e1 hj1
+  apply ca_bind_uniform (by nxa_walk []) (by ext_walk []) (by prev_walk []) hj1
+  intro u c2 _ w2 e2 hj2
+  have hctx2 : CtxOk c2 k.1 task.ctxsIn := (hctx.mono w1 e1).mono w2 e2
   have hmid : ∀ (u : Except Err Unit) c3, ((if ts.withItems.isSome then do
         let c ← M.get
         if (c.st.getStaged? k).isNone then M.throw .attributeError
@@ -1031,10 +974,10 @@ theorem requestTaskRerun_jt (k : TaskKey) (resetItems : Bool) (c : Cond) (hj : J
         let _ ← addTaskState E k task.ctxsIn task.prev
         M.modifySt fun st => st.addStaged
           { id := k.1, route := k.2, ctxsIn := if task.ctxsIn.isEmpty then [0] else task.ctxsIn,
-            prev := task.prev, ready := true } : M Unit) c2) = (u, c3) → JT c3 := by
+            prev := task.prev, ready := true } : M Unit) c2) = (u, c3) → CA c3 := by
     intro u c3 hrun
     split at hrun
-    · have hjj := JT.uniform (m := (do
+    · have hjj := CA.uniform (m := (do
           let c ← M.get
           if (c.st.getStaged? k).isNone then M.throw .attributeError
           else M.modifySt fun st => st.updateStaged k fun x =>
@@ -1043,11 +986,12 @@ theorem requestTaskRerun_jt (k : TaskKey) (resetItems : Bool) (c : Cond) (hj : J
       rw [hrun] at hjj
       exact hjj
     · rw [M.bind_run] at hrun
-      have ha := addTaskState_jt E k task.ctxsIn task.prev c2 hj2 hprev2
+      have ha := addTaskState_ca E k task.ctxsIn task.prev c2 hj2 hctx2
       have wa := ((addTaskState_nxa E k task.ctxsIn task.prev).run c2).toMK
+      have ea := (addTaskState_ext E k task.ctxsIn task.prev).run c2
       cases hadd : addTaskState E k task.ctxsIn task.prev c2 with
       | mk res ca =>
-        rw [hadd] at hrun ha wa
+        rw [hadd] at hrun ha wa ea
         cases res with
         | error e =>
           have : c3 = ca := by cases hrun; rfl
@@ -1059,7 +1003,7 @@ theorem requestTaskRerun_jt (k : TaskKey) (resetItems : Bool) (c : Cond) (hj : J
               ({ id := k.1, route := k.2, ctxsIn := if task.ctxsIn.isEmpty then [0] else task.ctxsIn,
                  prev := task.prev, ready := true } : Staged)) } := by cases hrun; rfl
           subst hc3
-          refine JT.of_parts ?mk0 ?ext0 ha ?_ ?_
+          refine CA.of_parts ?mk0 ?ext0 ha ?_ ?_
           case mk0 => exact ⟨fun i r m hr hm => ⟨r, hr, hm⟩⟩
           case ext0 => exact Ext.of_eq rfl rfl rfl rfl
           · intro x' hx'
@@ -1068,7 +1012,8 @@ theorem requestTaskRerun_jt (k : TaskKey) (resetItems : Bool) (c : Cond) (hj : J
             · right
               simp only [List.mem_singleton] at hm
               subst hm
-              exact hprev2.mono wa
+              apply CtxOk.same (c := ca) rfl rfl
+              exact (hctx2.mono wa ea).orZero
           · intro i r' hr' hlen
             have h2 : i < ca.st.sequence.length := (List.getElem?_eq_some_iff.mp hr').1
             have h3 : ca.st.sequence.length ≤ i := hlen
@@ -1090,32 +1035,22 @@ theorem requestTaskRerun_jt (k : TaskKey) (resetItems : Bool) (c : Cond) (hj : J
     | error e => exact hj3
     | ok _ =>
       dsimp only
-      exact JT.uniform (by nxa_walk []) (by ext_walk []) (by prev_walk []) c3 hj3
+      exact CA.uniform (by nxa_walk []) (by ext_walk []) (by prev_walk []) c3 hj3
 
-theorem requestTaskRerun_ji (k : TaskKey) (r : Bool) : JI (requestTaskRerun E k r) :=
-  ⟨fun c hi => hi.of ((requestTaskRerun_dec E k r).run c).weak ((requestTaskRerun_tk E k r).run c)
-    ((requestTaskRerun_g E k r).run c) (requestTaskRerun_jt E k r c hi.jt hi.tk)⟩
+theorem requestTaskRerun_ji2 (k : TaskKey) (r : Bool) : JI2 (requestTaskRerun E k r) :=
+  ⟨fun c hi => ⟨(requestTaskRerun_ji E k r).run c hi.inv, requestTaskRerun_ca E k r c hi.ca hi.inv.tk⟩⟩
 
-theorem JI.throw {α} (e : Err) : JI (M.throw e : M α) := ⟨fun _ hi => hi⟩
-
-theorem JI.mapM' {α β} (xs : List α) {f : α → M β} (hf : ∀ x, JI (f x)) : JI (M.mapM' xs f) := by
-  induction xs with
-  | nil => exact JI.pure _
-  | cons x xs ih =>
-    show JI (M.bind' (f x) fun y => M.bind' (M.mapM' xs f) fun ys => Pure.pure (y :: ys))
-    exact JI.bind (hf x) (fun _ => JI.bind ih (fun _ => JI.pure _))
-
-theorem requestRerun_ji (reqs : List RerunReq) : JI (requestRerun E reqs) := by
+theorem requestRerun_ji2 (reqs : List RerunReq) : JI2 (requestRerun E reqs) := by
   unfold requestRerun
   repeat' (first
-    | exact JI.pure _ | exact JI.throw _
-    | exact JI.of_rel Rel.get Rel.get Rel.get Rel.get Rel.get
-    | exact JI.of_rel (Rel.liftOpt _ _) (Rel.liftOpt _ _) (Rel.liftOpt _ _) (Rel.liftOpt _ _) (Rel.liftOpt _ _)
-    | exact JI.of_rel (Rel.liftExcept _) (Rel.liftExcept _) (Rel.liftExcept _) (Rel.liftExcept _) (Rel.liftExcept _)
-    | exact requestTaskRerun_ji E _ _
-    | apply JI.bind | apply JI.forEach | apply JI.mapM'
+    | exact JI2.pure _ | exact JI2.throw _
+    | exact JI2.of_rel Rel.get Rel.get Rel.get Rel.get Rel.get
+    | exact JI2.of_rel (Rel.liftOpt _ _) (Rel.liftOpt _ _) (Rel.liftOpt _ _) (Rel.liftOpt _ _) (Rel.liftOpt _ _)
+    | exact JI2.of_rel (Rel.liftExcept _) (Rel.liftExcept _) (Rel.liftExcept _) (Rel.liftExcept _) (Rel.liftExcept _)
+    | exact requestTaskRerun_ji2 E _ _
+    | apply JI2.bind | apply JI2.forEach | apply JI2.mapM'
     | intro _ | split
-    | (apply JI.of_rel
+    | (apply JI2.of_rel
        · dec_walk []
        · tk_walk []
        · g_walk []
